@@ -58,6 +58,23 @@ var limitEntryPoints = map[string]func(in []byte) error{
 		_, err = t.Tokenize(in)
 		return err
 	},
+	"tokenize:alldialects": func(in []byte) error {
+		var first error
+		for _, d := range sqlkw.AllDialects() {
+			t, err := tokenizer.NewWithDialect(d)
+			if err != nil {
+				continue
+			}
+			if _, err := t.Tokenize(in); err != nil && first == nil {
+				first = err
+			}
+			t2 := tokenizer.GetTokenizer()
+			t2.SetDialect(d)
+			_, _ = t2.Tokenize(in)
+			tokenizer.PutTokenizer(t2)
+		}
+		return first
+	},
 	"tokenize:keywords": func(in []byte) error {
 		t, err := tokenizer.NewWithKeywords(sqlkw.NewKeywords())
 		if err != nil {
@@ -204,6 +221,20 @@ var entryPoints = map[string]func(in []byte) error{
 		n := 0
 		ast.Inspect(tree, func(ast.Node) bool { n++; return true })
 		ast.ReleaseAST(tree)
+		return nil
+	},
+	"lintfix": func(in []byte) error {
+		rules := []linter.Rule{
+			whitespace.NewTrailingWhitespaceRule(), whitespace.NewMixedIndentationRule(),
+			whitespace.NewConsecutiveBlankLinesRule(1), whitespace.NewRedundantWhitespaceRule(),
+			keywords.NewKeywordCaseRule(keywords.CaseUpper), keywords.NewKeywordCaseRule(keywords.CaseLower),
+		}
+		text := string(in)
+		vs := linter.New(rules...).LintString(text, "in.sql").Violations
+		for _, r := range rules {
+			_, _ = r.Fix(text, nil)
+			_, _ = r.Fix(text, vs)
+		}
 		return nil
 	},
 	"lint": func(in []byte) error {
